@@ -259,17 +259,39 @@ func checkC12(c *Ctx, r *Report) {
 				}
 				// set filled from the discovery result
 				filled := false
-				if mm, isMM := lk.X.(*ssa.MakeMap); isMM {
+				for _, o := range viewOrigins(sel, lk.X) {
+					mm, isMM := o.(*ssa.MakeMap)
+					if !isMM {
+						continue
+					}
 					for _, ref := range *mm.Referrers() {
-						if mu, isMU := ref.(*ssa.MapUpdate); isMU {
-							for _, l := range leavesOf(mu.Key) {
-								if ld2, ok := l.(*ssa.UnOp); ok && ld2.Op == token.MUL {
-									if ex2, ok := apOf(ld2.X).Root.(*ssa.Extract); ok {
-										if call, ok := ex2.Tuple.(*ssa.Call); ok {
-											for _, d := range disc {
-												if d == ssa.Instruction(call) {
-													filled = true
-												}
+						mu, isMU := ref.(*ssa.MapUpdate)
+						if !isMU {
+							continue
+						}
+						for _, l := range leavesOf(mu.Key) {
+							ld2, ok := l.(*ssa.UnOp)
+							if !ok || ld2.Op != token.MUL {
+								continue
+							}
+							for _, ap := range viewAPs(sel, ld2.X) {
+								root := ap.Root
+								// the element of a slice being ranged over: follow to the slice
+								for i := 0; i < 4; i++ {
+									if ld3, isLd := root.(*ssa.UnOp); isLd && ld3.Op == token.MUL {
+										aps := viewAPs(sel, ld3.X)
+										if len(aps) == 1 {
+											root = aps[0].Root
+											continue
+										}
+									}
+									break
+								}
+								if ex2, ok := root.(*ssa.Extract); ok {
+									if call, ok := ex2.Tuple.(*ssa.Call); ok {
+										for _, d := range disc {
+											if d == ssa.Instruction(call) {
+												filled = true
 											}
 										}
 									}
@@ -454,25 +476,16 @@ func checkC12(c *Ctx, r *Report) {
 		for _, a := range algs {
 			r.Rule("confirmation", "a session is returned only if each algorithm in the Open Session Response was compared equal with the one proposed", 3)
 			ok := false
-			for _, ifi := range ifsOf(m.Fn) {
-				if _, on := p.Took(ifi); !on {
+			for _, rel := range p.relations() {
+				if rel.Op != token.EQL {
 					continue
 				}
-				op, x, y, _, isBin := condOf(ifi.Cond)
-				if !isBin || (op != token.EQL && op != token.NEQ) || !tookEqualArm(p, ifi) {
-					continue
-				}
-				for _, pr := range [][2]ssa.Value{{x, y}, {y, x}} {
-					ld, isLd := pr[0].(*ssa.UnOp)
-					if !isLd || ld.Op != token.MUL {
-						continue
-					}
-					ap := apOf(ld.X)
-					if ap.Root != m.OpenRsp || ap.SelString() != a.payload+".Algorithm" {
+				for _, pr := range [][2]ssa.Value{{rel.X, rel.Y}, {rel.Y, rel.X}} {
+					if !p.loadOfField(pr[0], m.OpenRsp, a.payload+".Algorithm") {
 						continue
 					}
 					// other side: the chosen suite's field (what was proposed)
-					if chosen != nil && fieldLoadOf(pr[1], chosen, a.field) {
+					if chosen != nil && p.loadOfField(pr[1], chosen, a.field) {
 						ok = true
 					}
 				}
